@@ -167,6 +167,7 @@ def plan(tier, seed):
         add('core', 'core', [1, 2, 3], ALL_FLAGSETS, 3, 3)
         add('core-b4', 'core', [4], CORE_FLAGSETS, 3, 2)
         add('core-b5', 'core', [5], ['DE', 'E'], 2, 2, residue=(seed % 8, 8))
+    chunks.append(('selftest',))
     return {
         'chunks': chunks,
         'coverage': {'layers': layers, 'exhaustive': True},
@@ -184,8 +185,20 @@ def plan(tier, seed):
 
 
 def run_chunk(chunk):
-    name, menu, budget, flagsets, depth, max_alts, sh, ns, residue, kinds = chunk
     res = run.ChunkResult()
+    if chunk[0] == 'selftest':
+        # the regex -> automaton translation against CPython's engine on all short strings (harness self-check)
+        from .. import selftest
+        import io
+        import contextlib
+        buf = io.StringIO()
+        with contextlib.redirect_stdout(buf):
+            bad = selftest.conformance(4)
+        if bad:
+            raise run.HarnessError('regex->automaton translation disagrees with re: ' + buf.getvalue()[-500:])
+        res.n['translation_selftest_strings'] += int(buf.getvalue().split()[2])
+        return res
+    name, menu, budget, flagsets, depth, max_alts, sh, ns, residue, kinds = chunk
     core, full = menus()
     lv = core if menu == 'core' else full
     k = 0
